@@ -4,6 +4,9 @@ in : {"case": n, "table": Table, "ops": [BOp], "fn": WFn | null, "rfn": RFn | nu
       "pre": Expr | null, "post": Expr | null, "name": "w"}
       (exactly one of fn / rfn; `pre` filters before the window column is added, `post` after, and may
        mention the window column)
+     or {"case": n, "table": Table, "chain": [UStep]} — a DataFrame chain whose select items may be window
+        functions (Impl/C08Chain.lean); out: {"case", "model", "spec", "scope", "accepts", "determined",
+        "trace": [CTE count after each step], "flags": the generated Gen.WinChain decisions}
      or {"case": n, "bound": x}   — the generated boundary function on one integer
      or {"case": n, "gen": true}  — the generated constants / tables / flags (compared with the live objects)
 out: {"case", "emit": <the clause the model says sqlframe stores>, "scope": [violated hypotheses],
@@ -112,6 +115,85 @@ def handleCase (c : Case) : String :=
     ("accepts", toJson accepts),
     ("unique", toJson uniq)])
 
+
+/-! ### DataFrame chains with window items -/
+
+structure ChainCase where
+  case : Nat
+  table : Table
+  chain : List UStep
+  deriving FromJson
+
+def tableOrErr (e : String) : Option Table → Json
+  | none => Json.mkObj [("err", toJson e)]
+  | some T => T.toPlain
+
+/-- does the value depend on the order of tied rows? -/
+def tieDep (w : WinDef) : WFn → Bool
+  | .rowNumber | .ntile _ | .lag .. | .lead .. | .first _ | .last _ => true
+  | .rank | .denseRank => false
+  | _ => match w.frame with
+    | some f => decide (f.kind = .rows) && !(decide (f.lo = .unboundedPreceding) && decide (f.hi = .unboundedFollowing))
+    | none => false
+
+def itemDet (T : Table) : Item → Bool
+  | .expr .. => true
+  | .win _ w fn => !(tieDep w fn) || orderUnique T.cols w T.rows
+
+def itemAcc : Item → Bool
+  | .win _ w fn => sparkAccepts w fn
+  | _ => true
+
+/-- no two different rows agree on every sort key -/
+def sortUnique (T : Table) (keys : List OrdKey) : Bool :=
+  let tg := tagRows T.rows
+  tg.all (fun a => tg.all (fun b => a.1 == b.1 || decide (a.2 = b.2) || !(decide (ordKey T.cols keys a.2 = ordKey T.cols keys b.2))))
+
+/-- is the result determined by the data (window values not tie-dependent, LIMIT only after a total ORDER BY)? -/
+def chainDet : Table → Option CStep → List CStep → Bool
+  | _, _, [] => true
+  | T, prev, s :: ss =>
+    (match s with
+     | .select items => items.all (itemDet T)
+     | .withColumn it => itemDet T it
+     | .limit n => decide (n ≥ T.rows.length) || (match prev with | some (.orderBy keys) => sortUnique T keys | _ => false)
+     | _ => true) && chainDet (specStepW T s) (some s) ss
+
+def stepAcc (cols : List Sqlframe.Name) : CStep → Bool
+  | .select items => items.all itemAcc && decide (items.map Item.name).Nodup
+  | .withColumn it => itemAcc it
+  | .orderBy keys => !keys.isEmpty && keys.all (fun k => cols.contains k.name)
+  | .groupAgg keys aggs => !keys.isEmpty && decide (keys ++ aggs.map (·.name)).Nodup && keys.all cols.contains &&
+      aggs.all (fun a => cols.contains a.col)
+  | _ => true
+
+def chainAcc : Table → List CStep → Bool
+  | _, [] => true
+  | T, s :: ss => stepAcc T.cols s && chainAcc (specStepW T s) ss
+
+def dedupStr : List String → List String
+  | [] => []
+  | x :: xs => x :: (dedupStr xs).filter (· != x)
+
+def handleChain (c : ChainCase) : String :=
+  let specs := progSpecs c.chain
+  let msteps := resolveSteps modelResolve c.chain
+  let ssteps := resolveSteps sparkDef c.chain
+  let bad := specs.any (fun ops => !(keyCols ops).isEmpty)
+  if bad then Json.compress (Json.mkObj [("case", toJson c.case), ("err", toJson "bad-input: expression order keys are not supported inside a chain")]) else
+  let model := match msteps with
+    | none => if specs.any (builderRaises genFlags) then Json.mkObj [("err", toJson "IndexError")] else Json.mkObj [("err", toJson "engine-rejects")]
+    | some steps => ((WDF.init c.table).run steps).eval.toPlain
+  let trace := match msteps with | none => [] | some steps => (WDF.init c.table).trace steps
+  Json.compress (Json.mkObj [
+    ("case", toJson c.case),
+    ("model", model),
+    ("spec", tableOrErr "pyspark-raises" (specChain c.table c.chain)),
+    ("scope", toJson (dedupStr (specs.flatMap violated))),
+    ("accepts", toJson (match ssteps with | some steps => chainAcc c.table steps | none => false)),
+    ("determined", toJson (match ssteps with | some steps => chainDet c.table none steps | none => false)),
+    ("trace", toJson trace)])
+
 def handleBound (c : BoundCase) : String :=
   let r := getValueAndSide c.bound
   Json.compress (Json.mkObj [
@@ -144,12 +226,29 @@ def handleGen (n : Nat) : String :=
       ("partitionByExtends", toJson partitionByExtends), ("orderByExtends", toJson orderByExtends),
       ("partitionByIndexesFirst", toJson partitionByIndexesFirst), ("orderByIndexesFirst", toJson orderByIndexesFirst),
       ("partitionByKeepsAlias", toJson partitionByKeepsAlias), ("orderByKeepsAlias", toJson orderByKeepsAlias)]),
+    ("chain", Json.mkObj [
+      ("withColumnViaWrapped", toJson Gen.WinChain.withColumnViaWrapped),
+      ("withColumnsExistingInPlace", toJson Gen.WinChain.withColumnsExistingInPlace),
+      ("withColumnsNewAtEnd", toJson Gen.WinChain.withColumnsNewAtEnd),
+      ("withColumnsSelectViaWrapped", toJson Gen.WinChain.withColumnsSelectViaWrapped),
+      ("convertLeafFreshSelect", toJson Gen.WinChain.convertLeafFreshSelect),
+      ("whereIntoHandedBlock", toJson Gen.WinChain.whereIntoHandedBlock)]),
+    ("tags", Json.mkObj ([("where", Gen.tag_where), ("filter", Gen.tag_filter), ("select", Gen.tag_select),
+        ("withColumn", Gen.tag_withColumn), ("withColumns", Gen.tag_withColumns), ("distinct", Gen.tag_distinct),
+        ("orderBy", Gen.tag_orderBy), ("limit", Gen.tag_limit)].map (fun p =>
+          (p.1, match p.2 with | none => Json.null | some op => toJson op.toInt)))),
     ("pyspark", Json.mkObj [("longMin", toJson longMin), ("longMax", toJson longMax), ("edgeStart", toJson edgeStart)])])
 
 def handle (line : String) : String :=
   match Json.parse line with
   | .error e => Json.compress (Json.mkObj [("err", toJson s!"bad-input: {e}")])
   | .ok j =>
+    match j.getObjVal? "chain" with
+    | .ok _ =>
+      (match fromJson? (α := ChainCase) j with
+       | .ok c => handleChain c
+       | .error e => Json.compress (Json.mkObj [("err", toJson s!"bad-input: {e}")]))
+    | .error _ =>
     match j.getObjVal? "gen", j.getObjVal? "bound" with
     | .ok _, _ => handleGen ((j.getObjValAs? Nat "case").toOption.getD 0)
     | _, .ok _ =>
